@@ -129,6 +129,27 @@ Theorem per_source_result_wellformed : forall ny nx seg l r child,
 Proof. exact per_source_lemma. Qed.
 Print Assumptions per_source_result_wellformed.
 
+(* per-source independence (relabel=False): if the watershed stage returned the same array
+   for parent l in two calls on the same segmentation, l's pixels get the same child pattern
+   up to the additive label offset — whatever the other selected labels, their order, their
+   results, nproc and the completion orders.  (That the watershed stage itself looks at
+   nothing but source l's cutout is library/threshold code, not modelled: the harness checks
+   "alone = together = shuffled" on the real code.) *)
+Theorem per_source_independent :
+  forall ny nx seg l npix
+         raw warns inmap labels_arg nlevels cn cd mode_ok dtmax nproc order r labels
+         raw' warns' inmap' labels_arg' nlevels' cn' cd' mode_ok' dtmax' nproc' order' r' labels',
+  deblend_sources ny nx seg raw warns inmap npix labels_arg nlevels (cn, cd) mode_ok false dtmax nproc order = Ok r ->
+  deblend_sources ny nx seg raw' warns' inmap' npix labels_arg' nlevels' (cn', cd') mode_ok' false dtmax' nproc' order' = Ok r' ->
+  cn <> cd -> cn' <> cd' ->
+  valid_schedule ny nx seg npix labels_arg order -> valid_schedule ny nx seg npix labels_arg' order' ->
+  selected ny nx seg npix labels_arg = Some labels -> selected ny nx seg npix labels_arg' = Some labels' ->
+  In l labels -> In l labels' -> raw l = raw' l ->
+  exists k k', forall y x, y < ny -> x < nx -> at2 seg y x = l ->
+    at2 (r_data r) y x + k' = at2 (r_data r') y x + k.
+Proof. exact per_source_independent_lemma. Qed.
+Print Assumptions per_source_independent.
+
 (* ---------------- schedules ---------------- *)
 (* results[idx] = future.result() over as_completed: for EVERY permutation of the
    completion events the slot list is the list of results in submission order (or the
